@@ -100,6 +100,7 @@ def generate(prop, rng, tier):
             op['path'] = rng.choice(['oop', 'ip'])
             op['fill'] = rng.choice(GARBAGE)
             op['effort'] = rng.choice([None, None, 'estimate', 'measure'])
+            op['olay'] = rng.choice(LAYOUTS)
         if t == 'create_tmp':
             op['r'], op['f'] = rng.random() < 0.7, rng.random() < 0.7
         if t == 'init_plan':
@@ -107,12 +108,28 @@ def generate(prop, rng, tier):
         if t == 'scribble':
             op['fill'] = rng.choice(GARBAGE)
         ops.append(op)
+    # memory layouts of the pool elements (a cached FFTW plan is tied to the
+    # strides it was made for) and of the out arguments
     return {'cfg': cfg, 'ops': ops, 'garbage': rng.choice(GARBAGE[:4]),
-            'global_seed': rng.getrandbits(31), 'xseed': rng.getrandbits(32)}
+            'global_seed': rng.getrandbits(31), 'xseed': rng.getrandbits(32),
+            'xlay': [rng.choice(LAYOUTS) for _ in range(3)],
+            'ylay': [rng.choice(LAYOUTS) for _ in range(3)]}
+
+
+LAYOUTS = ['C'] * 5 + ['F', 'strided', 'strided']
 
 
 def simplify(prop, plan):
+    for key in ('xlay', 'ylay'):
+        if any(l != 'C' for l in plan.get(key, [])):
+            c = copy.deepcopy(plan)
+            c[key] = ['C'] * 3
+            yield c
     for i, op in enumerate(plan['ops']):
+        if op.get('olay', 'C') != 'C':
+            c = copy.deepcopy(plan)
+            c['ops'][i]['olay'] = 'C'
+            yield c
         if op.get('effort') not in (None,):
             c = copy.deepcopy(plan)
             c['ops'][i]['effort'] = None
@@ -239,6 +256,12 @@ def execute(prop, plan, ctx):
                     'a fresh {} transform raised {} on its first call: {} '
                     '[cfg {}]'.format(site(cfg), type(e).__name__,
                                       str(e)[:160], cfg))
+        for pool_, key in ((xs, 'xlay'), (ys, 'ylay')):
+            for i_, lay in enumerate(plan.get(key, [])[:3]):
+                if lay != 'C':
+                    pool_[i_] = SP.relayout(pool_[i_], lay)
+                    ctx.fired('layout-pool-' + lay)
+    pool_snap = [(e, elem_snapshot(e)) for e in xs + ys]
     eps = SP.eps_for(xs[0], ys[0])
     S = site(cfg)
     for op in plan['ops']:
@@ -287,6 +310,15 @@ def execute(prop, plan, ctx):
                 S, t, type(e).__name__),
                 '{} on {} ({}) raised {}: {} [cfg {}]'.format(
                     t, op['obj'], S, type(e).__name__, str(e)[:200], cfg))
+        # no call, planning or temporary management may touch an element the
+        # caller still holds (a plan keeps the arrays it was created with)
+        for q, (e, sn) in enumerate(pool_snap):
+            if not snapshot_equal_bits(sn, e):
+                raise Violation('C18', 'C18/pool-modified/{}/{}'.format(S, t),
+                                '{} on {} modified the element {}[{}] the '
+                                'caller holds from an earlier call [cfg {}]'
+                                ''.format(t, op['obj'], 'xs' if q < 3 else
+                                          'ys', q % 3, cfg))
         ctx.step()
     for k, v in fired.items():
         ctx.fired('alloc-' + k, v)
@@ -320,6 +352,9 @@ def _call(plan, cfg, objs, op, xs, ys, eps, ctx, fired, S, real_full):
         else:
             with seams.allocator('zero'):
                 y = obj.range.element()
+                if op.get('olay', 'C') != 'C':
+                    y = SP.relayout(y, op['olay'])
+                    ctx.fired('layout-out-' + op['olay'])
             used = fill_elem(y, op['fill'], 3)
             ctx.fired('out-' + str(used))
             ret = obj(x, out=y, **kw)
